@@ -19,15 +19,18 @@ func viol(s *Scenario, clause, detailKey, detail string) vrt.Violation {
 	return vrt.Violation{Key: s.Class + "/" + clause + "/" + detailKey, Detail: fmt.Sprintf("%s\n  scenario: %s\n  reference: %s", detail, s, s.Ref.Summary())}
 }
 
-// firstEngineFrame extracts the first engine source location of a panic stack.
+// firstEngineFrame extracts the first engine function of a panic stack (edit-stable: no line numbers).
 func firstEngineFrame(stack string) string {
-	for _, l := range strings.Split(stack, "\n") {
+	lines := strings.Split(stack, "\n")
+	for i, l := range lines {
 		l = strings.TrimSpace(l)
-		if strings.HasPrefix(l, "/repo/") && !strings.Contains(l, "/internal/verif/") && !strings.Contains(l, "/cmd/verifh/") {
-			if i := strings.Index(l, " "); i > 0 {
-				l = l[:i]
+		if strings.HasPrefix(l, "/repo/") && !strings.Contains(l, "/internal/verif/") && !strings.Contains(l, "/cmd/verifh/") && i > 0 {
+			fn := strings.TrimSpace(lines[i-1])
+			if j := strings.LastIndex(fn, "("); j > 0 {
+				fn = fn[:j]
 			}
-			return strings.TrimPrefix(l, "/repo/")
+			fn = strings.TrimPrefix(fn, "go.flow.arcalot.io/engine/")
+			return fn
 		}
 	}
 	return "unknown"
@@ -40,6 +43,9 @@ func blockedKey(blocked []string) string {
 			site := b[i+len("blocked at "):]
 			if strings.Contains(site, "harness/") {
 				continue
+			}
+			if j := strings.Index(site, "@"); j >= 0 {
+				site = site[:j+1] + vrt.SiteKey(site[j+1:])
 			}
 			sites = append(sites, site)
 		}
@@ -209,7 +215,7 @@ func threadSites(live []string) string {
 	for _, l := range live {
 		if i := strings.Index(l, "("); i >= 0 {
 			if j := strings.Index(l[i:], ")"); j > 0 {
-				sites = append(sites, l[i+1:i+j])
+				sites = append(sites, vrt.SiteKey(l[i+1:i+j]))
 			}
 		}
 	}
@@ -275,10 +281,17 @@ func setStrings(set []any) string {
 	return strings.Join(alts, " | ")
 }
 
+var resolveErrRe = regexp.MustCompile(`cannot resolve expressions for (steps\.[A-Za-z0-9_.]+|outputs\.[A-Za-z0-9_]+)`)
+
 func oracleC02(s *Scenario, x *vrt.Exec, o *Obs) []vrt.Violation {
 	var out []vrt.Violation
 	if o.W == nil || x.Outcome().Panic != nil {
 		return nil
+	}
+	if o.Returned && o.Err != nil && len(s.Ref.EvalErrs) == 0 && strings.Contains(o.Err.Error(), "not found") {
+		if m := resolveErrRe.FindStringSubmatch(o.Err.Error()); m != nil {
+			out = append(out, viol(s, "input-evaluated-before-dependencies", m[1], "the engine evaluated the expressions of "+m[1]+" before the values they refer to existed: "+short(o.Err.Error(), 300)))
+		}
 	}
 	for _, e := range o.W.Ledger {
 		switch e.Kind {
@@ -752,6 +765,45 @@ func oracleC03cancel(s *Scenario, x *vrt.Exec, o *Obs) []vrt.Violation {
 		if strings.Contains(v.Key, "/output-without-dependencies/") || strings.Contains(v.Key, "/output-data-differs-from-produced/") ||
 			strings.Contains(v.Key, "/output-not-evaluable/") || (!o.Cancelled) {
 			out = append(out, v)
+		}
+	}
+	return out
+}
+
+// ---------------------------------------------------------------------------------------
+// C09: the result does not depend on how long goroutines are delayed
+
+func oracleC09(s *Scenario, x *vrt.Exec, o *Obs) []vrt.Violation {
+	var out []vrt.Violation
+	if !o.Returned || x.Outcome().Panic != nil || !s.Ref.Unique {
+		return nil
+	}
+	ref := s.Ref
+	stallKey := "nostall"
+	stallText := ""
+	if len(x.StallsTaken) > 0 {
+		var ks []string
+		for _, st := range x.StallsTaken {
+			ks = append(ks, "before-"+st.What+"@"+vrt.SiteKey(st.Site))
+			stallText += fmt.Sprintf(" [goroutine T%d held %dms before %s at %s]", st.Thread, st.MS, st.What, st.Site)
+		}
+		stallKey = strings.Join(ks, "+")
+	}
+	if o.Err != nil && errClass(o.Err) == "no-more-steps" && !ref.ResultErr && ref.ResultID != "" {
+		out = append(out, viol(s, "false-no-progress-report", stallKey, fmt.Sprintf("the engine reported that no step can make progress although output %s is producible and a goroutine was merely slow:%s (virtual t=%dms)", ref.ResultID, stallText, o.RetT)))
+		return out
+	}
+	switch {
+	case ref.ResultErr:
+		if o.Err == nil {
+			out = append(out, viol(s, "delay-changes-result", "output-instead-of-error/"+o.ID, "under a scheduling delay the run returned "+o.ID+" although no output is producible"))
+		}
+	case ref.ResultID == "":
+	default:
+		if o.Err != nil {
+			out = append(out, viol(s, "delay-changes-result", "error-instead-of-"+ref.ResultID+"/"+errClass(o.Err), fmt.Sprintf("under a scheduling delay the run returned error %q instead of output %s", short(o.Err.Error(), 200), ref.ResultID)))
+		} else if o.ID != ref.ResultID || !matchData(ref.ResultData, canon(o.Data)) {
+			out = append(out, viol(s, "delay-changes-result", "other-result/"+o.ID, fmt.Sprintf("under a scheduling delay the run returned %s %s instead of %s %s", o.ID, canonStr(o.Data), ref.ResultID, canonStr(ref.ResultData))))
 		}
 	}
 	return out
